@@ -15,7 +15,15 @@ MAX_INLINE_DEPTH = 6
 class Schema:
     """Quantified hypothesis kept as a schema and instantiated on the relevant terms of each VC."""
     def __init__(self, kind, fn, label=""):
-        self.kind, self.fn, self.label = kind, fn, label
+        self.kind, self.label = kind, label
+        self._fn = fn
+        self._cache = {}
+
+    def fn(self, t):
+        k = t.get_id()
+        if k not in self._cache:
+            self._cache[k] = self._fn(t)
+        return self._cache[k]
 
 
 class CallMixin:
@@ -493,7 +501,11 @@ class CallMixin:
 
     def spec_truth(self, st, text, cx):
         node = text if isinstance(text, ast.AST) else self.parse_spec(text)
-        return self.o.truthy(st, self.ev1(st, node, cx))
+        self.o.spec_depth += 1
+        try:
+            return self.o.truthy(st, self.ev1(st, node, cx))
+        finally:
+            self.o.spec_depth -= 1
 
     def parse_spec(self, text):
         if text not in self._spec_cache:
